@@ -48,7 +48,7 @@ func newEngine(tier string) (*Engine, error) {
 func (e *Engine) newVC(fn *ssa.Function, c *Contract, prop string) *VC {
 	vc := &VC{P: e.P, CS: e.CS, B: NewBuilder(), fn: fn, c: c, prop: prop, notes: map[string]bool{},
 		epochs: map[int]epochMerge{}, sortOf: map[string]Sort{}, typeIDs: map[string]int{}, strConsts: map[string]*Term{},
-		counters: map[string]int{}, factSeen: map[*Term]bool{}}
+		counters: map[string]int{}, factSeen: map[*Term]bool{}, ghostParent: map[int]int{}, factIndex: map[*Term]int{}}
 	return vc
 }
 
@@ -168,7 +168,10 @@ func (vc *VC) bindParams(f *Frame, st *State, sc splitCase) []Value {
 			ptr, ln = s.Ptr, s.Len
 		}
 		if ptr != nil {
-			n := int64(24)
+			if !ln.IsConst() {
+				vc.smallHints = append(vc.smallHints, B.Le(ln, B.Int(40)))
+			}
+			n := int64(40)
 			if ln.IsConst() && ln.ival.IsInt64() && ln.ival.Int64() < 48 {
 				n = ln.ival.Int64()
 			}
@@ -186,8 +189,20 @@ func (vc *VC) applyBinds(f *Frame, st *State) {
 	if vc.c == nil {
 		return
 	}
+	var conj []*Expr
+	var flat func(x *Expr)
+	flat = func(x *Expr) {
+		if x.Op == "bin" && x.Name == "&&" {
+			flat(x.Args[0])
+			flat(x.Args[1])
+			return
+		}
+		conj = append(conj, x)
+	}
 	for _, cl := range vc.c.Requires {
-		e := cl.E
+		flat(cl.E)
+	}
+	for _, e := range conj {
 		if e.Op == "bin" && e.Name == "==" && e.Args[0].Op == "name" && e.Args[1].Op == "int" {
 			if f.fn.Pkg == nil {
 				continue
@@ -224,6 +239,7 @@ func (vc *VC) runTop(sc splitCase) error {
 		vc.fact(g)
 		vc.note("axiom: %s", a.Text)
 	}
+	ctx.declareRegions = true
 	for _, cl := range vc.c.Requires {
 		g, err := ctx.evalBoolSafe(cl.E)
 		if err != nil {
@@ -231,6 +247,7 @@ func (vc *VC) runTop(sc splitCase) error {
 		}
 		st.pc = B.And(st.pc, g)
 	}
+	ctx.declareRegions = false
 	if vc.restOf != nil {
 		t, err := ctx.evalIntSafe(vc.restOf.E)
 		if err != nil {
@@ -250,32 +267,60 @@ func (vc *VC) runTop(sc splitCase) error {
 	if rst == nil {
 		return nil
 	}
-	ectx := f.newCtx(rst, entry)
+	_ = vals
 	res := vc.fn.Signature.Results()
-	for i := 0; i < res.Len(); i++ {
-		if i < len(vc.c.Results) {
-			ectx.names[vc.c.Results[i]] = CV{vals[i], res.At(i).Type()}
-		}
-	}
-	if res.Len() == 1 {
-		ectx.names["result"] = CV{vals[0], res.At(0).Type()}
-	}
-	for _, l := range vc.c.Lets {
-		if _, ok := ectx.names[l.Name]; !ok {
-			if cv := ectx.evalLet(l); cv.V != nil {
-				ectx.names[l.Name] = cv
+	// each postcondition is proved at every return separately (simpler queries, and the
+	// failing return is named); later clauses may use earlier ones
+	for ri, r := range f.returns {
+		rstate := r.st
+		ectx := f.newCtx(rstate, entry)
+		for i := 0; i < res.Len(); i++ {
+			if i < len(vc.c.Results) {
+				ectx.names[vc.c.Results[i]] = CV{r.vals[i], res.At(i).Type()}
 			}
 		}
-	}
-	for i, cl := range vc.c.Ensures {
-		if len(cl.Props) > 0 && vc.prop != "" && !clauseHasProp(cl, vc.c, vc.prop) {
-			continue
+		if res.Len() == 1 {
+			ectx.names["result"] = CV{r.vals[0], res.At(0).Type()}
 		}
-		g, err := ectx.evalBoolSafe(cl.E)
-		if err != nil {
-			return fmt.Errorf("%s: ensures: %v", cl.Pos, err)
+		for i, g := range vc.c.Ghosts {
+			if i < len(r.ghosts) && r.ghosts[i] != nil {
+				ectx.names[g.Name] = CV{r.ghosts[i], nil}
+			}
 		}
-		f.oblige(rst, "ensures", fmt.Sprintf("%d", i+1), "postcondition: "+cl.Text, vc.fn.Pos(), g, cl)
+		for _, l := range vc.c.Lets {
+			if _, ok := ectx.names[l.Name]; !ok {
+				if cv := ectx.evalLet(l); cv.V != nil {
+					ectx.names[l.Name] = cv
+				}
+			}
+		}
+		// vacuity guard: this return is reachable under the facts and preconditions
+		rc := &Obligation{Name: f.oblName("cover", fmt.Sprintf("return%d", ri+1)), Kind: "cover-return", Func: funcKey(vc.fn),
+			Text: fmt.Sprintf("return at line %d is reachable (facts and path condition are consistent)", r.line),
+			Hyps: []*Term{rstate.pc}, Goal: B.False(), vc: vc, Cover: true, Pos: vc.c.Pos, NFacts: len(vc.facts)}
+		rc.FIdx = append([]int{}, rstate.fidx...)
+		vc.obls = append(vc.obls, rc)
+		for i, cl := range vc.c.Ensures {
+			if isUnverified(cl) {
+				vc.note("UNVERIFIED clause of %s (stated, not proved, not assumed at call sites): %s", vc.c.Key, cl.Text)
+				continue
+			}
+			if len(cl.Props) > 0 && vc.prop != "" && !clauseHasProp(cl, vc.c, vc.prop) {
+				continue
+			}
+			ectx.st = rstate
+			g, err := ectx.evalBoolSafe(cl.E)
+			if err != nil {
+				return fmt.Errorf("%s: ensures: %v", cl.Pos, err)
+			}
+			where := fmt.Sprintf(" [return at line %d", r.line)
+			if r.tag > 0 {
+				where += fmt.Sprintf(", loop exit %d", r.tag-1)
+			}
+			f.oblige(rstate, "ensures", fmt.Sprintf("%d.ret%d", i+1, ri+1), "postcondition: "+cl.Text+where+"]", vc.fn.Pos(), g, cl)
+			rstate = rstate.clone()
+			rstate.pc = B.And(rstate.pc, g)
+		}
 	}
 	return nil
 }
@@ -322,7 +367,9 @@ func termVars(t *Term, memo map[*Term]map[*Term]bool) map[*Term]bool {
 	return r
 }
 
-func (o *Obligation) script() (string, []string) {
+func (o *Obligation) script() (string, []string) { return o.scriptWith(nil) }
+
+func (o *Obligation) scriptWith(extra []*Term) (string, []string) {
 	vc := o.vc
 	B := vc.B
 	memo := map[*Term]map[*Term]bool{}
@@ -335,7 +382,31 @@ func (o *Obligation) script() (string, []string) {
 	for v := range termVars(o.Goal, memo) {
 		rel[v] = true
 	}
-	facts := vc.facts[:o.NFacts]
+	var facts []*Term
+	if o.FIdx != nil && os.Getenv("GOVC_ALLFACTS") == "" {
+		seen := map[int]bool{}
+		for _, i := range vc.baseFacts {
+			if !seen[i] {
+				seen[i] = true
+				facts = append(facts, vc.facts[i])
+			}
+		}
+		for _, i := range o.FIdx {
+			if !seen[i] {
+				seen[i] = true
+				facts = append(facts, vc.facts[i])
+			}
+		}
+		if os.Getenv("GOVC_DIFFFACTS") != "" && strings.Contains(o.Name, os.Getenv("GOVC_DIFFFACTS")) {
+			for i, fc := range vc.facts {
+				if !seen[i] {
+					fmt.Fprintf(os.Stderr, "EXCLUDED %d: %s\n", i, B.Show(fc))
+				}
+			}
+		}
+	} else {
+		facts = vc.facts[:o.NFacts]
+	}
 	used := make([]bool, len(facts))
 	changed := true
 	for changed {
@@ -369,6 +440,7 @@ func (o *Obligation) script() (string, []string) {
 	}
 	asserts = append(asserts, o.Hyps...)
 	asserts = append(asserts, B.Not(o.Goal))
+	asserts = append(asserts, extra...)
 	var gv []*Term
 	var names []string
 	for _, v := range vc.modelVars {
@@ -394,6 +466,9 @@ func (e *Engine) discharge(obls []*Obligation) {
 	mnames := make([][]string, len(obls))
 	t0 := time.Now()
 	for i, o := range obls {
+		if o.Res.Verdict != "" {
+			continue
+		}
 		scripts[i], mnames[i] = o.script()
 	}
 	if os.Getenv("GOVC_TIMING") != "" {
@@ -404,6 +479,9 @@ func (e *Engine) discharge(obls []*Obligation) {
 		fmt.Fprintf(os.Stderr, "timing: %d scripts, %d bytes, generated in %.2fs\n", len(scripts), n, time.Since(t0).Seconds())
 	}
 	for i, o := range obls {
+		if o.Res.Verdict != "" {
+			continue // decided by evaluation
+		}
 		wg.Add(1)
 		go func(i int, o *Obligation) {
 			defer wg.Done()
@@ -423,6 +501,24 @@ func (e *Engine) discharge(obls []*Obligation) {
 		}(i, o)
 	}
 	wg.Wait()
+	// minimise counterexamples: ask again with small sizes so that replays are executable
+	for i, o := range obls {
+		if o.vc == nil || o.Cover || o.Res.Verdict != "sat" || len(o.vc.smallHints) == 0 {
+			continue
+		}
+		sc, names := o.scriptWith(o.vc.smallHints)
+		r := solve(o.Name+"_min", sc, 10, false)
+		if r.Verdict == "sat" && len(r.ModelList) == len(names) {
+			r.Model = map[string]string{}
+			for j, n := range names {
+				r.Model[n] = r.ModelList[j]
+			}
+			o.Res.Model = r.Model
+			o.Res.ModelList = r.ModelList
+			o.Res.Output = r.Output
+		}
+		_ = i
+	}
 }
 
 func (o *Obligation) ok() bool {
@@ -525,4 +621,13 @@ func cmdLoops(args []string) int {
 		}
 	}
 	return 0
+}
+
+func isUnverified(cl *Clause) bool {
+	for _, p := range cl.Props {
+		if p == "unverified" {
+			return true
+		}
+	}
+	return false
 }
